@@ -275,33 +275,3 @@ Arguments in_loop {args} _ _.
 Arguments dec_in_loop {args} _ _.
 Arguments insert_sorted {args} _ _ _.
 Arguments sort_by {args} _ _.
-
-(* ---------------------------------------------------------------------------------- *)
-(* Sanity: the example of docs/colang_2/language_reference/more-on-flows.rst
-   ("Flow Conflict Resolution Prioritization"): chains 1.0 -> 1.0 -> 1.0 and 0.9 -> 1.0 -> 1.0,
-   different actions: the first chain wins, the second flow is aborted. *)
-Module Sanity.
-  Open Scope string_scope.
-  Definition ev (s : string) : event string := {| ev_name := "StartUtteranceBotAction"; ev_args := s |}.
-  Definition mk (h l : string) (sc : list Q) (s : string) : cand string :=
-    {| c_head := h; c_flow := "f" ++ h; c_loop := l; c_scores := sc; c_event := ev s;
-       c_action := None; c_catch := [] |}.
-  Definition pick0 : nat -> nat -> nat := fun _ _ => 0.
-
-  Definition doc_cands := [mk "b" "main" [9#10; 1; 1]%Q "Sure"; mk "a" "main" [1; 1; 1]%Q "Hello"].
-  Example doc_example :
-    result_of (resolve string String.eqb pick0 doc_cands)
-    = {| r_advancing := ["a"]; r_emitted := [ev "Hello"]; r_aborted := [("fb", [9#10; 1; 1]%Q)];
-         r_jumped := []; r_merged := [] |}.
-  Proof. vm_compute. reflexivity. Qed.
-
-  (* shorter list padded with 1.0 wins against an equal prefix followed by a lower score;
-     two loops never compete; identical actions co-win and are emitted once *)
-  Definition cands2 :=
-    [mk "1" "L1" [9#10]%Q "A"; mk "2" "L1" [9#10; 9#10]%Q "B"; mk "3" "L2" [1#2]%Q "C"; mk "4" "L1" [81#100]%Q "A"].
-  Example padding_loops_cowin :
-    result_of (resolve string String.eqb pick0 cands2)
-    = {| r_advancing := ["1"; "4"; "3"]; r_emitted := [ev "A"; ev "C"];
-         r_aborted := [("f2", [9#10; 9#10]%Q)]; r_jumped := []; r_merged := [] |}.
-  Proof. vm_compute. reflexivity. Qed.
-End Sanity.
